@@ -1,4 +1,5 @@
 import KmipModel.Registry
+import KmipModel.SpecStructs
 /-
   Hand-written expectations: the independent side of every comparison with tables generated from /repo.
 -/
@@ -87,5 +88,46 @@ def sortedInjective (ba aa : List Nat) : List (Nat × Nat) → Bool
   | [_] => true
   | (a, x) :: (b, y) :: rest =>
     (x < y || (x == y && a != b && mayShareK ba aa a b)) && sortedInjective ba aa ((b, y) :: rest)
+
+/-! ### C19: structure fields and nesting -/
+
+/-- number the registry assigns to a spec tag name (0 if the name is not a registry tag) -/
+def regTag (n : String) : Nat := (lookup (strip Registry.tags) n).getD 0
+
+/-- SpecStructs.fields with names as numbers and tag names resolved through the registry:
+    (type, field, expected tag number, number of the structure that must directly contain the item) -/
+def specFieldKeys : List (Nat × Nat × Nat × Nat) :=
+  SpecStructs.fields.map fun (t, f, tag, c) => (keyOf t, keyOf f, regTag tag, regTag c)
+
+/-- fields the package deliberately never puts on the wire (annotated `-,skip`: any item is accepted and discarded,
+    nothing is emitted): for these the expectation is the any-tag marker, not the spec's tag -/
+def offWire : List (String × String) := [("MessageExtension", "VendorExtension")]
+
+/-- expected (type, field, number) rows: the spec's tag number, or the any-tag marker for off-wire fields -/
+def expectedFieldRows (offWireK : List (Nat × Nat)) (spec : List (Nat × Nat × Nat × Nat)) : List (Nat × Nat × Nat) :=
+  spec.map fun (t, f, tag, _) => if offWireK.contains (t, f) then (t, f, 0xffffff) else (t, f, tag)
+
+def tagAttributeValue : Nat := 0x42000B
+def tagTemplateAttribute : Nat := 0x420091
+/-- Common / Private Key / Public Key Template-Attribute: Template-Attribute structures under other tags -/
+def templateAttributeTags : List Nat := [0x42001F, 0x420065, 0x42006E]
+
+/-- a struct whose items the spec puts directly inside structure `c` may be written under tag `h` when:
+    `h` is that structure; or `h` is Attribute Value (a structured attribute value carries the attribute's
+    structure fields directly); or `c` is Template-Attribute and `h` one of its three tagged variants -/
+def containerOk (c h : Nat) : Bool :=
+  h == c || h == tagAttributeValue || (c == tagTemplateAttribute && templateAttributeTags.contains h)
+
+def dedupPairs : List (Nat × Nat) → List (Nat × Nat)
+  | [] => []
+  | p :: rest => if rest.contains p then dedupPairs rest else p :: dedupPairs rest
+
+/-- (type, container the spec requires, tag the code writes the type under) for every mismatch -/
+def nestingBad (spec : List (Nat × Nat × Nat × Nat)) (holders : List (Nat × Nat)) : List (Nat × Nat × Nat) :=
+  (dedupPairs (spec.map fun (t, _, _, c) => (t, c))).flatMap fun (t, c) =>
+    (holders.filter fun (t', h) => t' == t && !containerOk c h).map fun (_, h) => (t, c, h)
+
+/-- recorded nesting deviations (known findings): Authentication holds Credential Type/Value directly, omitting the Credential level -/
+def knownNesting : List (Nat × Nat × Nat) := [(keyOf "Authentication", 0x420023, 0x42000C)]
 
 end Kmip.Expect
